@@ -79,7 +79,9 @@
 #else
 #define C15_SAN ""
 #endif
-#if defined(__OPTIMIZE__) && !defined(C15_O1)
+#if defined(C15_O0)
+#define C15_BUILD "-O0 with the stack below the caller filled with a5 before every load, " C15_SWAPS C15_SAN
+#elif defined(__OPTIMIZE__) && !defined(C15_O1)
 #define C15_BUILD "-O2, " C15_SWAPS C15_SAN
 #else
 #define C15_BUILD "-O1, " C15_SWAPS C15_SAN
@@ -118,15 +120,33 @@ enum { KIND_u = 'u', KIND_s = 's', KIND_f = 'f', ORD_n = 'n', ORD_b = 'b', ORD_l
 /* Uniform wrappers: a loaded value is returned as 64 bits (unsigned: zero
  * extended from the function's return type, signed: sign extended from it,
  * float: the bits of the returned object). */
+/* C15_O0 (unoptimised build, no sanitizer): every load is preceded by a call
+ * that fills its own frame -- the region the loader's frame is about to occupy
+ * -- with a5, so that a loader returning octets of an object it did not fully
+ * initialise returns a5 lanes instead of whatever the previous call left
+ * (seed C15r).  A codec that initialises what it returns cannot notice. */
+#if defined(C15_O0)
+__attribute__((noinline)) static void
+c15_stack_poison(void)
+{
+    volatile unsigned char a[384];
+    for (size_t i = 0; i < sizeof a; ++i)
+        a[i] = 0xa5;
+}
+#define C15_POISON() c15_stack_poison()
+#else
+#define C15_POISON() ((void)0)
+#endif
 #define WRAP_u(W, O, T)                                                        \
-    static uint64_t wr_u##W##O(const void *p) { return (uint64_t)bf_ref_u##W##O(p); } \
+    static uint64_t wr_u##W##O(const void *p) { C15_POISON(); return (uint64_t)bf_ref_u##W##O(p); } \
     static void *ws_u##W##O(void *p, uint64_t v) { return bf_set_u##W##O(p, (T)v); }
 #define WRAP_s(W, O, T)                                                        \
-    static uint64_t wr_s##W##O(const void *p) { return (uint64_t)(int64_t)bf_ref_s##W##O(p); } \
+    static uint64_t wr_s##W##O(const void *p) { C15_POISON(); return (uint64_t)(int64_t)bf_ref_s##W##O(p); } \
     static void *ws_s##W##O(void *p, uint64_t v) { return bf_set_s##W##O(p, (T)(int64_t)v); }
 #define WRAP_f(W, O, T)                                                        \
     static uint64_t wr_f##W##O(const void *p)                                  \
     {                                                                          \
+        C15_POISON();                                                          \
         const T x = bf_ref_f##W##O(p);                                         \
         uint##W##_t b;                                                         \
         memcpy(&b, &x, sizeof b);                                              \
